@@ -265,6 +265,14 @@ def check_day(ctx, day, walk, rng, heavy, mq_all):
             st_, g_ = ctx.call(dt_bump, tv_, tenor_)
             if st_ != 'ok' or g_ != ref_:
                 ctx.fail('start_flavours', 'dt_bump(%s as %s, %r) = %s %r but from the datetime it is %s' % (t, fl_, tenor_, st_, g_, ref_), case=dict(term, tenor=str(tenor_), flavour=fl_))
+    # ... and an intraday start with its microseconds in those flavours, under the fixed-length and business-day units
+    for tenor_ in ('%dh' % rng.randint(-30, 30), '%db' % rng.randint(-9, 9), '%dd%ds' % (rng.randint(-9, 9), rng.randint(-50, 50)), rng.randint(-9, 9)):
+        ref_ = dt_bump(T, tenor_)
+        for fl_, tv_ in (('Timestamp', pd.Timestamp(T)), ('datetime64', np.datetime64(T)), ('text', T.isoformat()), ('text with a space', T.isoformat(' '))):
+            mon['start_flavours'] += 1
+            st_, g_ = ctx.call(dt_bump, tv_, tenor_)
+            if st_ != 'ok' or g_ != ref_:
+                ctx.fail('start_flavours', 'dt_bump(%s as %s, %r) = %s %r but from the datetime it is %s' % (T, fl_, tenor_, st_, g_, ref_), case=dict(term, tenor=str(tenor_), flavour=fl_, tod=tod.total_seconds()))
     # monotone in t also between an intraday start and the following midnight
     for n_ in (0, 1, -1, 3):
         a_, b_ = t + datetime.timedelta(hours=23), t + DAY
